@@ -104,6 +104,13 @@ def install(capture_csv=False):
             utils.type = pysym.sym_type
             utils.int = pysym.sym_int
             utils.round = pysym.sym_round
+    import data.csv_reader
+    import data.csv_types
+
+    if not _installed and not CONCRETE:
+        for m in (data.csv_reader, data.csv_types):
+            m.int = pysym.sym_int
+            m.float = pysym.sym_float
     import workload.tasks  # noqa: E402
     import workers.workers  # noqa: F401
     import schedulers  # noqa: F401
